@@ -175,6 +175,22 @@ def oracle(c):
     else:
         return ("undocumented-trap", "%s%s: %s" % (fn, a, res))
     pre = Pre(c)
+    # time: a call may only wait for as long as the guest asked. Only poll_oneoff waits at all, and then for at most
+    # the smallest relative clock timeout among its subscriptions (nothing when there is no clock subscription)
+    slept = [x for x in (c.get("slept") or []) if x > 0]
+    if slept:
+        budget = 0
+        if fn == "poll_oneoff" and a[2] * 48 <= ms and a[0] + a[2] * 48 <= ms:
+            tos = []
+            for i in range(a[2]):
+                base = a[0] + 48 * i
+                if pre.u(base + 8, 1) == 0 and pre.u(base + 40, 2) == 0:
+                    t = pre.u(base + 24, 8)
+                    tos.append(t if t < 1 << 63 else 0)
+            budget = min(tos) if tos else 0
+        if sum(slept) > budget:
+            return ("sleeps-longer-than-asked", "%s%s slept %s ns; the guest's subscriptions allow at most %d ns%s" %
+                    (fn, a, slept, budget, "" if fn != "poll_oneoff" else " (no relative clock subscription)" if budget == 0 else ""))
     R, alias = designated(c, pre)
     if not alias:
         bad = inside(c.get("diff") or [], merge(R, ms))
